@@ -155,6 +155,10 @@ def gen_trace(seed, config, prop, tier):
                 st["rse"] = None  # keyword not given: library default
             if r_op.random() < 0.06:
                 st["ne"] = None   # keyword not given: library default (4)
+            if r_op.random() < 0.08:
+                st["rse"] = 1 if st["rse"] else 0      # truthy / falsy instead of a bool
+            if r_op.random() < 0.08:
+                st["ne_np"] = True                      # ne handed over as a numpy integer
             steps.append(st)
             if op == "generate_mesh_pair":
                 steps.append(dict(st))
@@ -409,10 +413,13 @@ def run_trace(fs, trace, flog, preempt, collect_states=False):
                     pre = MO.snapshot(*sl.mesh)
                     an = RO.analyse(pre)
                     kwargs = {"ne": st["ne"]} if st.get("ne") is not None else {}
+                    if st.get("ne_np") and "ne" in kwargs:
+                        import numpy as _np
+                        kwargs["ne"] = _np.int64(kwargs["ne"])
                     st = dict(st, ne=st["ne"] if st.get("ne") is not None else 4)
                     if st.get("rse") is not None:
                         kwargs["replace_short_edges"] = st["rse"]
-                    flag = True if st.get("rse") is None else st["rse"]
+                    flag = True if st.get("rse") is None else bool(st["rse"])
                     res = None
                     exc_name = None
                     flog.phase = "call"
